@@ -19,13 +19,18 @@
      [octal], [hexadecimal] (value <= SSIZE_MAX), [NAME] where NAME is an integer constant of the
      declaration context (macro or enumerator, 0 <= value <= SSIZE_MAX); any white space that
      separates the tokens; any declaration context whose table of globals is sorted; any output
-     buffer that is large enough.
+     buffer that is large enough;  and, after a grouping parenthesis, a parameter list "()" or
+     "(void)" (pointers to functions without parameters, at any depth: pointer to function
+     returning pointer to function ..., arrays of such pointers), with __cdecl or __stdcall
+     allowed as the first token inside that grouping parenthesis.
    SIDE THEOREMS (all strings): C07_no_fault, C07_result_index_in_range,
      C07_next_token_stops_at_terminator, C07_lookahead_stops_at_terminator.
    PROVED (C07_agree_names_partial): the same declarators over a base type named through the
      declaration context: declared typedef names, standard *_t names, struct/union tags (declared,
      right or wrong kind), enum tags (declared or not), in any well-formed context.
-   MISSING from the full statement: function suffixes (parameters, void, ..., __cdecl/__stdcall),
+   MISSING from the full statement: parameter lists with parameters or "..." (argument decay),
+     function types that are not behind a pointer, __cdecl/__stdcall anywhere else (both parsers
+     accept it in a declarator header; without a function the C parser rejects it),
      the common types bool/FILE, undeclared struct/union tags, array lengths named by negative or
      undeclared constants (both reject), declarator names, qualifiers
      after the specifiers but before the first '*' are covered only when written in the
@@ -214,6 +219,26 @@ Proof.
   apply SD1; try reflexivity.
   - repeat constructor; vm_compute; congruence.
   - apply SD0; [reflexivity|]. repeat constructor; vm_compute; congruence.
+Qed.
+
+(* "long(__stdcall*const*[2])(void)": an array of pointers to constant pointers to a function
+   without parameters; the hypotheses of C07_agree_partial hold and both sides are the same
+   accepted type *)
+Example C07_function_example :
+  let ws := [WM Mlong] in
+  let d := D [] None (Some (Some true, D [HStar; HQ Qconst; HStar] None None [] [ALLit (s2l "2")]))
+             [F [] true false] [] in
+  let t := simple_te [] ws d in
+  let wtoks := map (fun tk => ([], tk)) (te_tokens t) in
+  (ws <> [] /\ sign_ok ws = true /\ sdecl [] d /\ map snd wtoks = te_tokens t /\ sep_ok [] wtoks = true) /\
+  spell wtoks [] = s2l "long(__stdcall*const*[2])(void)" /\
+  c_typeof 1200 nog (spell wtoks []) = Some (CArr (CPtr (CFunc (CPrim 9) [] false)) (Some 2%Z)) /\
+  denote nog t = Some (CArr (CPtr (CFunc (CPrim 9) [] false)) (Some 2%Z)).
+Proof.
+  cbv zeta. split; [|split; [|split]; vm_compute; reflexivity].
+  repeat split; try (vm_compute; congruence).
+  apply SD2; try reflexivity.
+  apply SD0; [reflexivity|]. repeat constructor; vm_compute; congruence.
 Qed.
 
 (* " const t *[3][N]" and "union s" in a context with `typedef int *t;`, `struct s` (8 bytes) and
